@@ -224,11 +224,11 @@ def run_shard(shard, tier, acc):
             for i, j in grid:
                 check_triple(i, x, j, acc)
     elif kind == "xfam":
-        for n in X_SIZES[tier]:
+        for n in X_SIZES[tier] + ([16500] if shard[1] in ("failed_blocks", "closers") and tier == "quick" else []):
             x = X_FAMILIES[shard[1]](n)
             acc.count("xfam_cases")
-            for i in (0, 3, 4):
-                for j in (0, 1, 4, 5):
+            for i in (0, 3, 4) if n <= 5000 else (3,):
+                for j in (0, 1, 4, 5) if n <= 5000 else (4,):
                     check_triple(i, x, j, acc, case={"d1": i, "xfam": [shard[1], n], "d2": j})
     elif kind == "xwindow":
         W = shard[1]
